@@ -347,7 +347,7 @@ func (ev *evaluator) Evaluate(cases []evalCase, chunk int) map[string]*evalResul
 			if len(a.DanglingRefs) > 0 {
 				res.Fails[ckRef] = "unresolvable inside the document: " + strings.Join(a.DanglingRefs, " , ")
 			}
-			if res.Judged && a.MetaOK {
+			if res.Judged {
 				r.Count("instances_validated", int64(len(insts)))
 				for i, ir := range a.InstanceResults {
 					if ir.OK {
@@ -355,6 +355,9 @@ func (ev *evaluator) Evaluate(cases []evalCase, chunk int) map[string]*evalResul
 					}
 					if ir.RefError && len(a.DanglingRefs) > 0 {
 						continue // already reported as a dangling reference
+					}
+					if strings.HasPrefix(ir.Err, "validator error") {
+						continue // the document is not a usable schema (reported as meta-invalid)
 					}
 					res.Fails[ckInst] = fmt.Sprintf("value %d: %s", i, ir.Err)
 					break
